@@ -61,11 +61,12 @@ func IsECDHE(suite uint16) bool { return suite == 0xe051 || suite == 0xe011 }
 
 // half is one direction of record protection.
 type half struct {
-	on   bool
-	gcm  bool
-	k    dirKeys
-	aead cipher.AEAD
-	blk  cipher.Block
+	padMut func(pad []byte) // test hook: alters the CBC padding bytes after the MAC was computed
+	on     bool
+	gcm    bool
+	k      dirKeys
+	aead   cipher.AEAD
+	blk    cipher.Block
 }
 
 func newHalf(k dirKeys, gcm bool) *half {
@@ -101,6 +102,9 @@ func (h *half) seal(seq8 []byte, typ byte, vers uint16, payload []byte) []byte {
 	pad := 16 - len(pt)%16
 	for i := 0; i < pad; i++ {
 		pt = append(pt, byte(pad-1))
+	}
+	if h.padMut != nil {
+		h.padMut(pt[len(pt)-pad:])
 	}
 	iv := make([]byte, 16)
 	rand.Read(iv)
